@@ -25,7 +25,7 @@ def pPeer : Tok (Nat × Ip × FlowScope) := do
   pure (a, .peer ip c, fs)
 
 def pQs : Tok (Nat × List EQuestion) := do
-  let d ← Tok.nat; let qs ← Tok.list EQuestion.parse
+  let d ← Tok.nat; let qs ← Tok.list (EQuestion.parseN NameText.Tok.nameT)
   pure (d, qs)
 
 def pKind : Tok (Option RKind) := do
